@@ -239,7 +239,8 @@ def run_history(start, ops):
                 return (idx, "violation", [("accept/invalid-accepted/" + exp[1], "%s raises ValueError: %r is not a version (%s)"
                                             % (what, exp[2], exp[1]), "accepted: %r" % (after,))], rolled)
             if res != "ValueError" or after != before:
-                sig = "assign/%s/%s/should-reject/%s/%s" % (attr, value_class(x), res, "state-changed" if after != before else "state-kept")
+                # a failed rollback does not depend on the value; the exception class tells None from the rest
+                sig = "assign/%s/should-reject/%s/%s" % (attr, res, "state-changed" if after != before else "state-kept")
                 return (idx, "violation", [(sig, "%s raises ValueError (%s) and leaves %r" % (what, exp[1], before),
                                             "%s; %r" % ("no exception" if res == "ok" else "raises " + res, after))], rolled)
             rolled = True
